@@ -137,4 +137,63 @@ def DataFrame_get_join_indices_signature : List String := ["self", "other", "by1
 /-- the calls of dataiter/data_frame.py: DataFrame._get_join_indices in the order Python makes them along the source text -/
 def DataFrame_get_join_indices_call_order : List String := ["zip", "enumerate", "key1.is_datetime", "key2.is_datetime", "np.promote_types", "key1.astype", "key2.astype", "new1.astype", "new1.astype(key1.dtype).equal", "new1.astype(key1.dtype).equal(key1).all", "new2.astype", "new2.astype(key2.dtype).equal", "new2.astype(key2.dtype).equal(key2).all", "zip", "list", "range", "zip", "map", "np.fromiter", "np.where"]
 
+/-- dataiter/data_frame.py: DataFrame.full_join (sha256 of the function source: fe3fa4f7f55ded27) -/
+def DataFrame_full_join (truth : Term → Bool) : Out :=
+  let a' : Term := (Term.app ".copy" [(Term.sym "self")]);
+  let b' : Term := (Term.app ".copy" [(Term.sym "other")]);
+  let eff0 : Term := (Term.app "store" [(Term.app "getitem" [a', (Term.sym "'_aid_'")]), (Term.app "np.arange" [(Term.app ".nrow" [(Term.sym "self")])])]);
+  let eff1 : Term := (Term.app "store" [(Term.app "getitem" [b', (Term.sym "'_bid_'")]), (Term.app "np.arange" [(Term.app ".nrow" [(Term.sym "other")])])]);
+  let ab' : Term := (Term.app ".left_join" [a', b', (Term.app "*" [(Term.sym "by")])]);
+  let b' : Term := (Term.app ".anti_join" [b', ab', (Term.sym "'_bid_'")]);
+  if truth (Term.app "Eq" [(Term.app ".nrow" [b']), (Term.int (0 : Int))]) then
+    Out.ret [eff0, eff1] (Term.app ".unselect" [ab', (Term.sym "'_aid_'"), (Term.sym "'_bid_'")])
+  else
+    let by_reverse' : Term := (Term.app "ListComp" [(Term.app "ifexp" [(Term.app "isinstance" [(Term.sym "x"), (Term.app "tuple" [(Term.sym "list"), (Term.sym "tuple")])]), (Term.app "tuple()" [(Term.app "reversed" [(Term.sym "x")])]), (Term.sym "x")]), (Term.app "in" [(Term.sym "x"), (Term.sym "by"), (Term.app "if" [])])]);
+    let ba' : Term := (Term.app ".left_join" [b', a', (Term.app "*" [by_reverse'])]);
+    let eff2 : Term := (Term.app "for" [(Term.sym "item"), (Term.sym "by"), (Term.app "block" [(Term.app "if" [(Term.app "isinstance" [(Term.sym "item"), (Term.app "tuple" [(Term.sym "list"), (Term.sym "tuple")])]), (Term.app "block" [(Term.app "store" [(Term.app "getitem" [ba', (Term.app "getitem" [(Term.sym "item"), (Term.int (0 : Int))])]), (Term.app ".pop" [ba', (Term.app "getitem" [(Term.sym "item"), (Term.int (1 : Int))])])])]), (Term.app "block" [])])])]);
+    Out.ret [eff0, eff1, eff2] (Term.app ".unselect" [(Term.app ".sort" [(Term.app ".rbind" [ab', ba']), (Term.app "=_aid_" [(Term.int (1 : Int))]), (Term.app "=_bid_" [(Term.int (1 : Int))])]), (Term.sym "'_aid_'"), (Term.sym "'_bid_'")])
+
+/-- the decorators of dataiter/data_frame.py: DataFrame.full_join, outermost first -/
+def DataFrame_full_join_decorators : List String := []
+
+/-- the signature of dataiter/data_frame.py: DataFrame.full_join: parameters in order, with the source text of their defaults -/
+def DataFrame_full_join_signature : List String := ["self", "other", "*by"]
+
+/-- the calls of dataiter/data_frame.py: DataFrame.full_join in the order Python makes them along the source text -/
+def DataFrame_full_join_call_order : List String := ["self.copy", "other.copy", "np.arange", "np.arange", "a.left_join", "b.anti_join", "ab.unselect", "isinstance", "reversed", "tuple", "b.left_join", "isinstance", "ba.pop", "ab.rbind", "ab.rbind(ba).sort", "ab.rbind(ba).sort(_aid_=1, _bid_=1).unselect"]
+
+/-- dataiter/data_frame.py: DataFrame.compare (sha256 of the function source: 639e34a83ecd6c56) -/
+def DataFrame_compare (truth : Term → Bool) : Out :=
+  if truth (Term.app "Lt" [(Term.app ".nrow" [(Term.app ".unique" [(Term.sym "self"), (Term.app "*" [(Term.sym "by")])])]), (Term.app ".nrow" [(Term.sym "self")])]) then
+    Out.raise [] "ValueError"
+  else
+    if truth (Term.app "Lt" [(Term.app ".nrow" [(Term.app ".unique" [(Term.sym "other"), (Term.app "*" [(Term.sym "by")])])]), (Term.app ".nrow" [(Term.sym "other")])]) then
+      Out.raise [] "ValueError"
+    else
+      let added' : Term := (Term.app ".anti_join" [(Term.sym "self"), (Term.sym "other"), (Term.app "*" [(Term.sym "by")])]);
+      let removed' : Term := (Term.app ".anti_join" [(Term.sym "other"), (Term.sym "self"), (Term.app "*" [(Term.sym "by")])]);
+      let x' : Term := (Term.app ".modify" [(Term.sym "self"), (Term.app "=_i_" [(Term.app "range" [(Term.app ".nrow" [(Term.sym "self")])])])]);
+      let y' : Term := (Term.app ".modify" [(Term.sym "other"), (Term.app "=_j_" [(Term.app "range" [(Term.app ".nrow" [(Term.sym "other")])])])]);
+      let z' : Term := (Term.app ".inner_join" [x', (Term.app ".select" [y', (Term.sym "'_j_'"), (Term.app "*" [(Term.sym "by")])]), (Term.app "*" [(Term.sym "by")])]);
+      let colnames' : Term := (Term.app "util.unique_keys" [(Term.app "Add" [(Term.app ".colnames" [(Term.sym "self")]), (Term.app ".colnames" [(Term.sym "other")])])]);
+      let colnames' : Term := (Term.app "ListComp" [(Term.sym "x"), (Term.app "in" [(Term.sym "x"), colnames', (Term.app "if" [(Term.app "NotIn" [(Term.sym "x"), (Term.sym "ignore_columns")])])])]);
+      let changed' : Term := (Term.app "list" []);
+      let eff0 : Term := (Term.app "for" [(Term.app "tuple" [(Term.sym "i"), (Term.sym "j")]), (Term.app "zip" [(Term.app "._i_" [z']), (Term.app "._j_" [z'])]), (Term.app "block" [(Term.app "if" [(Term.app "GtE" [(Term.app "len" [changed']), (Term.sym "max_changed")]), (Term.app "block" [(Term.app "print" [(Term.app "fstring" [(Term.sym "'max_changed='"), (Term.app "format" [(Term.sym "max_changed"), (Term.sym ""), (Term.int (-1 : Int))]), (Term.sym "' reached, terminating'")])]), (Term.sym "break")]), (Term.app "block" [])]), (Term.app "for" [(Term.sym "colname"), colnames', (Term.app "block" [(Term.app "if" [(Term.app "GtE" [(Term.app "len" [changed']), (Term.sym "max_changed")]), (Term.app "block" [(Term.sym "break")]), (Term.app "block" [])]), (Term.app "assign" [(Term.sym "xvalue"), (Term.app "ifexp" [(Term.app "In" [(Term.sym "colname"), x']), (Term.app "getitem" [(Term.app "getitem" [x', (Term.sym "colname")]), (Term.sym "i")]), (Term.sym "None")])]), (Term.app "assign" [(Term.sym "yvalue"), (Term.app "ifexp" [(Term.app "In" [(Term.sym "colname"), y']), (Term.app "getitem" [(Term.app "getitem" [y', (Term.sym "colname")]), (Term.sym "j")]), (Term.sym "None")])]), (Term.app "if" [(Term.app "And" [(Term.app "NotEq" [(Term.sym "xvalue"), (Term.sym "yvalue")]), (Term.app "not" [(Term.app ".all" [(Term.app ".is_na" [(Term.app "Vector" [(Term.app "list" [(Term.sym "xvalue"), (Term.sym "yvalue")])])])])])]), (Term.app "block" [(Term.app "assign" [(Term.sym "byrow"), (Term.app "DictComp" [(Term.app "pair" [(Term.sym "k"), (Term.app "getitem" [(Term.app "getitem" [x', (Term.sym "k")]), (Term.sym "i")])]), (Term.app "in" [(Term.sym "k"), (Term.sym "by"), (Term.app "if" [])])])]), (Term.app ".append" [changed', (Term.app "dict()" [(Term.app "=**" [(Term.sym "byrow")]), (Term.app "=column" [(Term.sym "colname")]), (Term.app "=xvalue" [(Term.sym "xvalue")]), (Term.app "=yvalue" [(Term.sym "yvalue")])])])]), (Term.app "block" [])])]), (Term.app "init" [(Term.sym "xvalue"), (Term.sym "xvalue")]), (Term.app "init" [(Term.sym "yvalue"), (Term.sym "yvalue")]), (Term.app "init" [(Term.sym "byrow"), (Term.sym "byrow")])])])]);
+      let xvalue' : Term := (Term.app "value-after-loop" [(Term.sym "xvalue"), eff0]);
+      let yvalue' : Term := (Term.app "value-after-loop" [(Term.sym "yvalue"), eff0]);
+      let byrow' : Term := (Term.app "value-after-loop" [(Term.sym "byrow"), eff0]);
+      let added' : Term := (if truth (Term.app "Gt" [(Term.app ".nrow" [added']), (Term.int (0 : Int))]) then added' else (Term.sym "None"));
+      let removed' : Term := (if truth (Term.app "Gt" [(Term.app ".nrow" [removed']), (Term.int (0 : Int))]) then removed' else (Term.sym "None"));
+      let changed' : Term := (if truth changed' then (Term.app ".from_json" [(Term.sym "self"), changed']) else (Term.sym "None"));
+      Out.ret [eff0] (Term.app "tuple" [added', removed', changed'])
+
+/-- the decorators of dataiter/data_frame.py: DataFrame.compare, outermost first -/
+def DataFrame_compare_decorators : List String := []
+
+/-- the signature of dataiter/data_frame.py: DataFrame.compare: parameters in order, with the source text of their defaults -/
+def DataFrame_compare_signature : List String := ["self", "other", "*by", "ignore_columns=[]", "max_changed=inf"]
+
+/-- the calls of dataiter/data_frame.py: DataFrame.compare in the order Python makes them along the source text -/
+def DataFrame_compare_call_order : List String := ["self.unique", "ValueError", "other.unique", "ValueError", "self.anti_join", "other.anti_join", "range", "self.modify", "range", "other.modify", "y.select", "x.inner_join", "util.unique_keys", "zip", "len", "print", "len", "Vector", "Vector([xvalue, yvalue]).is_na", "Vector([xvalue, yvalue]).is_na().all", "dict", "changed.append", "self.from_json"]
+
 end DI.Gen
